@@ -27,6 +27,9 @@ type ClientTransport struct {
 	callbacks *transport.Callbacks
 	pollExit  chan any
 	once      sync.Once
+
+	// Closed when `Run` returns.
+	runDone chan struct{}
 }
 
 func NewClientTransport(
@@ -43,6 +46,7 @@ func NewClientTransport(
 		httpClient:      httpClient,
 		callbacks:       callbacks,
 		pollExit:        make(chan any),
+		runDone:         make(chan struct{}),
 	}
 }
 
@@ -86,7 +90,14 @@ func (t *ClientTransport) Handshake() (hr *parser.HandshakeResponse, err error) 
 	return
 }
 
+// Done returns a channel that is closed when `Run` has returned, which means every
+// packet this transport has received (including those of a poll that was still in
+// flight when the transport was discarded) has been handed to the callbacks.
+func (t *ClientTransport) Done() <-chan struct{} { return t.runDone }
+
 func (t *ClientTransport) Run() {
+	defer close(t.runDone)
+
 	if t.initialPacket != nil {
 		t.callbacks.OnPacket(t.initialPacket)
 		// Set to nil for garbage collection.
